@@ -189,6 +189,9 @@ def c09_2(ctx, R="C09.2"):
                 for x in subterms(b.operand_term(t["d"])):
                     if isinstance(x, tuple) and x and x[0] == "c" and x[3] and x[3].endswith("::CREATE_COIN"):
                         consts["CREATE_COIN"] = x[2]
+                    # `atom == [CREATE_COIN]`: the opcode as a promoted one-byte array
+                    if isinstance(x, tuple) and x and x[0] == "cb" and isinstance(x[2], tuple) and len(x[2]) == 1 and "CREATE_COIN" not in consts:
+                        consts["CREATE_COIN"] = x[2][0]
         want_cost = fb.consts.get(CC + "opcodes::NEW_CREATE_COIN_COST", {}).get("value")
         ctx.ob(R, "SpendBundle::additions:constants", consts.get("CREATE_COIN") == 51 and consts.get("CREATE_COIN_COST") == want_cost == 1350000,
                "SpendBundle::additions matches opcode 51 and budgets NEW_CREATE_COIN_COST per coin (a larger value would refuse bundles consensus accepts)",
@@ -376,6 +379,11 @@ def c09_5(ctx):
         is51 = [c for c in conds if c[0] == "('Eq', ('[]', %s, 0), 51)" % opa and c[1] == ("bool", True)] + \
                [c for c in conds if c[0] == "('Ne', ('[]', %s, 0), 51)" % opa and c[1] == ("bool", False)]
         ok = len(one) == 1 and len(is51) == 1
+        # the same test as one whole-slice comparison: atom == [51] (length one and that byte)
+        whole = [c for c in conds if (c[0] == "('ne', %s, b'3')" % opa and c[1] == ("bool", False)) or
+                 (c[0] == "('eq', %s, b'3')" % opa and c[1] == ("bool", True))]
+        if not one and not is51 and len(whole) == 1:
+            ok = True
         detail = [c[0][:110] + " " + str(c[1]) for c in conds if "Allocator::atom" in c[0]]
     ctx.ob(R, "create-coin-test:SpendBundle::additions", ok,
            "SpendBundle::additions treats a condition as CREATE_COIN iff its opcode atom is exactly one byte equal to 51", found=detail, where=f.sp)
